@@ -68,22 +68,25 @@ L_PFrame(z, r, ln) ==
             ELSE R([z EXCEPT !.txs[k + 1].st = IF r.ctl.fail THEN "rolledback" ELSE "committed",
                             !.vis = IF r.ctl.fail THEN @ ELSE @ \o z.txs[k + 1].posts,
                             !.replies = Append(@, [did |-> r.f.did, want |-> "accepted", tx |-> k])], 0)
-  ELSE \* a post (only complete deliveries count; the first frame says whether it is transactional)
+  ELSE \* a post: the first frame says whether it is transactional and under which id; a post that has to be refused is refused
+       \* at its first frame, one that is taken counts when its last frame (more = false) has arrived
        LET ci == {j \in DOMAIN z.cur : z.cur[j].h = r.f.h}
            first == ci = {}
-           txn == IF first THEN r.f.state.k = "txn" ELSE z.cur[CHOOSE j \in ci : TRUE].txn
-           k == IF first THEN r.f.state.tx ELSE z.cur[CHOOSE j \in ci : TRUE].tx
-           cur2 == IF r.f.more THEN (IF first THEN Append(z.cur, [h |-> r.f.h, tx |-> k, txn |-> txn]) ELSE z.cur)
-                   ELSE SelectSeq(z.cur, LAMBDA c : c.h # r.f.h)
-           e == [ln |-> NameOf(z, r.f.h), m |-> r.pl.m] IN
-       IF r.f.more THEN R([z EXCEPT !.cur = cur2], 0)
-       ELSE IF ~txn THEN R([z EXCEPT !.cur = cur2, !.vis = Append(@, e)], 0)
-       ELSE IF Active(z, k) THEN R([z EXCEPT !.cur = cur2, !.txs[k + 1].posts = Append(@, e)], 0)
-       \* posted under a finished (or never declared) transaction: refused.  If the discharge is still unanswered the post is "late":
-       \* the wire order says it came after the discharge, the endpoint may not have served the discharge yet
-       ELSE IF TxOk(z, k) /\ \E j \in DOMAIN z.replies : z.replies[j].want # "declared" /\ z.replies[j].tx = k
-            THEN R([z EXCEPT !.cur = cur2, !.late = @ \cup {e.m}, !.lateDids = @ \cup {r.f.did}], 0)
-       ELSE R([z EXCEPT !.cur = cur2, !.refused = @ \cup {e.m}, !.refOwed = @ + 1], 0)
+           c0 == IF first THEN [h |-> r.f.h, tx |-> r.f.state.tx, txn |-> (r.f.state.k = "txn"), bad |-> FALSE] ELSE z.cur[CHOOSE j \in ci : TRUE]
+           k == c0.tx
+           isLate == TxOk(z, k) /\ \E j \in DOMAIN z.replies : z.replies[j].want # "declared" /\ z.replies[j].tx = k
+           refuse == first /\ c0.txn /\ ~Active(z, k)
+           c1 == [c0 EXCEPT !.bad = (@ \/ refuse)]
+           cur2 == IF r.f.more THEN (IF first THEN Append(z.cur, c1) ELSE z.cur) ELSE SelectSeq(z.cur, LAMBDA c : c.h # r.f.h)
+           e == [ln |-> NameOf(z, r.f.h), m |-> r.pl.m]
+           z1 == [z EXCEPT !.cur = cur2] IN
+       IF refuse THEN (IF isLate THEN R([z1 EXCEPT !.late = @ \cup {e.m}, !.lateDids = @ \cup {r.f.did}], 0)
+                       ELSE R([z1 EXCEPT !.refused = @ \cup {e.m}, !.refOwed = @ + 1], 0))
+       ELSE IF r.f.more \/ c1.bad THEN R(z1, 0)
+       ELSE IF ~c1.txn THEN R([z1 EXCEPT !.vis = Append(@, e)], 0)
+       ELSE IF Active(z, k) THEN R([z1 EXCEPT !.txs[k + 1].posts = Append(@, e)], 0)
+       \* the transaction ended between the first and the last frame of the post: nothing is demanded of this delivery
+       ELSE R([z1 EXCEPT !.refused = @ \cup {e.m}], 0)
 
 (* ------------------------------------------------------------ listener side: what the endpoint does *)
 L_EFrame(z, r, ln) ==
